@@ -1359,7 +1359,11 @@ class Simplifier:
                 ),
                 exp.and_(
                     this.is_(exp.null()),
-                    type(expression)(this=arg.copy(), expression=other.copy()),
+                    # Keep the operands on the sides they were written on: 1 < COALESCE(x, 2)
+                    # must become 1 < 2 for a NULL x, not 2 < 1
+                    type(expression)(this=arg.copy(), expression=other.copy())
+                    if coalesce is expression.left
+                    else type(expression)(this=other.copy(), expression=arg.copy()),
                     copy=False,
                 ),
                 copy=False,
